@@ -109,6 +109,17 @@ def run(ctx):
         if oc[0] not in ("ok", "refused"):
             ctx.violation({"backend": "roundtrip", "ty": r["ty"], "ctxt": r["ctxt"], "what": "forbidden-outcome", "detail": oc[1][:60]},
                           {"text": text, "outcome": oc[:2], "case": r})
+        elif oc[0] == "ok":
+            # a complete rendering represents every field, literal, operator and call (with its namespace): read back,
+            # it is the filter's own tree
+            ctx.traces += 1
+            try:
+                back = project.proj(project.parse(oc[2]))
+            except Exception as e:  # noqa
+                back = ["unreadable", type(e).__name__]
+            if back != project.proj(project.parse(text)):
+                ctx.violation({"backend": "roundtrip", "ty": r["ty"], "ctxt": r["ctxt"], "what": "incomplete-rendering", "root": root_of(r["tree"])},
+                              {"text": text, "rendered": oc[2][:400], "read_back": back, "case": r})
     validate(ctx, traces, info)
     # unknown fields on the SQLAlchemy backends
     from odata_query import exceptions as ex
